@@ -2,6 +2,8 @@
 package router_address
 
 import (
+	"strings"
+
 	"github.com/go-i2p/logger"
 	"github.com/samber/oops"
 
@@ -130,6 +132,15 @@ func parseTransportOptions(ra *RouterAddress, routerData []byte) ([]byte, error)
 	ra.TransportOptions = transportOptions
 	if transportOptions == nil && len(errs) > 0 {
 		return remainder, oops.Errorf("error parsing RouterAddress options: %v", errs[0])
+	}
+	// A malformed options mapping must not yield a RouterAddress without an
+	// error: only the "data exists beyond length of mapping" warning is
+	// expected here, because the mapping is followed by further data.
+	for _, err := range errs {
+		if strings.Contains(err.Error(), "data exists beyond length of mapping") {
+			continue
+		}
+		return remainder, oops.Errorf("error parsing RouterAddress options: %v", err)
 	}
 	return remainder, nil
 }
